@@ -116,6 +116,9 @@ impl Prop for C15 {
         let client = machines_of(&c.client);
         let server = machines_of(&c.server);
         let out = run_advanced(c, &mut sq, &client, &server);
+        if !c.hand_queue && c.line_style / 3 != 0 && c.trace.len() >= 2 {
+            obs.hit("input_lines_in_scrambled_order");
+        }
         let ev = &out.events;
         if ev.is_empty() {
             return fail("empty-output-for-non-empty-trace", String::new());
@@ -213,7 +216,7 @@ impl Prop for C15 {
     }
 
     fn required_classes() -> Vec<&'static str> {
-        vec!["ran_to_completion", "stopped_by_iteration_bound", "padding_packet", "blocking_period", "padding_replaced_by_queued_normal"]
+        vec!["ran_to_completion", "stopped_by_iteration_bound", "padding_packet", "blocking_period", "padding_replaced_by_queued_normal", "input_lines_in_scrambled_order"]
     }
 
     fn assumptions() -> Vec<&'static str> {
